@@ -155,6 +155,37 @@ func (c *FnCtx) havocGuarded(st *State, li *LockInv, obj string) {
 	}
 	key := typeName(o.Type())
 	for _, g := range li.Guards {
+		if strings.HasPrefix(g, "allmem ") {
+			// every backing array with elements of this type is shared state
+			tn := strings.TrimSpace(strings.TrimPrefix(g, "allmem "))
+			to := c.eng.resolveType(pkg, tn)
+			if to == nil {
+				c.errs = append(c.errs, "lockinv guards: unknown type "+tn)
+				continue
+			}
+			for _, lf := range leavesOf(to) {
+				c.heapHavoc(st, arrName("M", elemKey(to), lf.Path, lf.Sort))
+			}
+			continue
+		}
+		if strings.HasPrefix(g, "allmaps ") {
+			// every map of this type is shared state
+			tn := strings.TrimSpace(strings.TrimPrefix(g, "allmaps "))
+			to := c.eng.resolveType(pkg, tn)
+			mt, ok := to.(*types.Map)
+			if to == nil || !ok {
+				c.errs = append(c.errs, "lockinv guards: not a map type "+tn)
+				continue
+			}
+			mk := mapKeyOf(to)
+			c.heapHavoc(st, arrName("D", mk, "", "Bool"))
+			nl := c.heapHavoc(st, arrName("L", "", "", "Int"))
+			st.assume(fmt.Sprintf("(forall ((r Int)) (>= (select %s r) 0))", nl))
+			for _, lf := range leavesOf(mt.Elem()) {
+				c.heapHavoc(st, arrName("V", mk, lf.Path, lf.Sort))
+			}
+			continue
+		}
 		if strings.HasPrefix(g, "type ") {
 			tn := strings.TrimSpace(strings.TrimPrefix(g, "type "))
 			to := c.eng.resolveType(pkg, tn)
@@ -370,11 +401,11 @@ func (c *FnCtx) checkFrame(frame *Frame, st *State, env *SpecEnv, pos token.Pos)
 				c.errs = append(c.errs, "modifies: "+err.Error())
 				continue
 			}
-			pt, ok := obj.T.Underlying().(*types.Pointer)
+			owner, ok := fieldOwner(obj)
 			if !ok {
 				continue
 			}
-			ft, ghost := c.fieldType(pt.Elem(), m.Name)
+			ft, ghost := c.fieldType(owner, m.Name)
 			if ft == nil {
 				c.errs = append(c.errs, "modifies: unknown field "+m.Name)
 				continue
@@ -384,7 +415,7 @@ func (c *FnCtx) checkFrame(frame *Frame, st *State, env *SpecEnv, pos token.Pos)
 				path = "$" + m.Name
 			}
 			for _, lf := range leavesOf(ft) {
-				add(arrName("F", typeName(pt.Elem()), joinPath(path, lf.Path), lf.Sort), obj.S)
+				add(arrName("F", typeName(owner), joinPath(path, lf.Path), lf.Sort), obj.S)
 			}
 		case "map":
 			mv, err := c.eval(entry, m.Expr)
